@@ -399,38 +399,100 @@ func runC03(c *Checker) {
 	c.floor("HSK-ERR", 15)
 
 	// ---- HSK-SIB ----
-	info := w.Pkgs[targetMbox].TypesInfo
-	wfd := w.funcDecl(targetMbox, "handshakeState", "writeTokens")
-	rfd := w.funcDecl(targetMbox, "handshakeState", "readTokens")
-	if wfd == nil || rfd == nil {
-		c.anchorFail("writeTokens/readTokens declarations")
+	// token dispatch, from the branch facts of the SSA (a switch and an if-chain look the same):
+	// which Token constants have a leg, and that the leg on which every comparison failed ends
+	// in an error return
+	tokenLegs := func(fn *ssa.Function) (map[string]token.Pos, bool, token.Pos) {
+		legs := map[string]token.Pos{}
+		compared := map[string]bool{}
+		tokOf := func(f Fact) (string, bool) {
+			bo, ok := f.Cond.(*ssa.BinOp)
+			if !ok || bo.Op != token.EQL {
+				return "", false
+			}
+			for _, side := range []ssa.Value{bo.X, bo.Y} {
+				if k, ok := side.(*ssa.Const); ok && k.Value != nil && k.Value.Kind() == constant.String {
+					if nt := namedOf(k.Type()); nt != nil && nt.Obj().Name() == "Token" {
+						return constant.StringVal(k.Value), true
+					}
+				}
+			}
+			return "", false
+		}
+		if fn == nil {
+			return legs, false, token.NoPos
+		}
+		for _, b := range fn.Blocks {
+			for _, f := range factsAt(b) {
+				if t, ok := tokOf(f); ok {
+					compared[t] = true
+					if f.Val {
+						if _, have := legs[t]; !have && len(b.Instrs) > 0 {
+							legs[t] = b.Instrs[0].Pos()
+						}
+					}
+				}
+			}
+		}
+		// default leg: a block under "!= t" for every compared token
+		defErr, defPos := false, token.NoPos
+		for _, b := range fn.Blocks {
+			neg := map[string]bool{}
+			for _, f := range factsAt(b) {
+				if t, ok := tokOf(f); ok && !f.Val {
+					neg[t] = true
+				}
+			}
+			if len(compared) > 0 && len(neg) == len(compared) {
+				entry := true
+				for _, p := range b.Preds {
+					n2 := 0
+					for _, f := range factsAt(p) {
+						if _, ok := tokOf(f); ok && !f.Val {
+							n2++
+						}
+					}
+					if n2 == len(compared) {
+						entry = false
+					}
+				}
+				if entry {
+					defErr = blockReturnsError(b, 0)
+					if len(b.Instrs) > 0 {
+						defPos = b.Instrs[0].Pos()
+					}
+				}
+			}
+		}
+		return legs, defErr, defPos
+	}
+	wfnT := mboxFunc(c, "(*mailbox.handshakeState).writeTokens")
+	rfnT := mboxFunc(c, "(*mailbox.handshakeState).readTokens")
+	if wfnT == nil || rfnT == nil {
+		c.anchorFail("writeTokens/readTokens")
 		return
 	}
-	wc, wpos := w.tokenCases(wfd, info)
-	rc, rpos := w.tokenCases(rfd, info)
+	wpos, wDefErr, wDefPos := tokenLegs(wfnT)
+	rpos, rDefErr, rDefPos := tokenLegs(rfnT)
 	var tokens []string
+	tokVal := map[string]string{}
 	sc := w.Pkgs[targetMbox].Types.Scope()
 	for _, n := range sc.Names() {
 		if k, ok := sc.Lookup(n).(*types.Const); ok {
 			if nt, ok := k.Type().(*types.Named); ok && nt.Obj().Name() == "Token" {
 				tokens = append(tokens, n)
+				tokVal[n] = constant.StringVal(k.Val())
 			}
 		}
 	}
 	for _, t := range tokens {
-		_, okw := wc[t]
-		_, okr := rc[t]
-		c.decide(okw && okr, "HSK-SIB", "token|"+t+"|handled by writer and reader", wpos[t], "writeTokens and readTokens both have a case",
+		_, okw := wpos[tokVal[t]]
+		_, okr := rpos[tokVal[t]]
+		c.decide(okw && okr, "HSK-SIB", "token|"+t+"|handled by writer and reader", wpos[tokVal[t]], "writeTokens and readTokens both have a leg for it",
 			fmt.Sprintf("token %s is not handled on both sides (writer: %v, reader: %v)", t, okw, okr))
 	}
-	for _, side := range []struct {
-		name string
-		m    map[string]string
-		pos  map[string]token.Pos
-	}{{"writeTokens", wc, wpos}, {"readTokens", rc, rpos}} {
-		d, ok := side.m["default"]
-		c.decide(ok && strings.Contains(d, "return"), "HSK-SIB", side.name+"|unknown token is an error", side.pos["default"], "the default case returns an error", "an unknown token is silently skipped")
-	}
+	c.decide(wDefErr, "HSK-SIB", "writeTokens|unknown token is an error", wDefPos, "the leg on which no token matched returns an error", "an unknown token is silently skipped")
+	c.decide(rDefErr, "HSK-SIB", "readTokens|unknown token is an error", rDefPos, "the leg on which no token matched returns an error", "an unknown token is silently skipped")
 	// the DH steps, from the SSA of both token processors: which (remote, local) key pair is handed
 	// to ecdh under which role, per token, and that the result is mixed into the chaining key
 	type dhStep struct{ role, remote, local string }
